@@ -35,7 +35,24 @@ def apply_model(buf, upd):
     buf[y0 : y0 + h, x0 : x0 + w] = upd["value"]
 
 
-def child_program(d, fmt, updates):
+def child_program(d, fmt, updates, inputs=None):
+    if inputs is not None:
+        # the multi-image tiler's serial path, run as an independent job on the shared pyramid
+        def prog_tiler():
+            import warnings
+            from toasty import collection, multi_tan
+            from toasty.builder import Builder
+            from toasty.pyramid import PyramidIO
+
+            pio = PyramidIO(d, default_format=fmt)
+            with warnings.catch_warnings():
+                warnings.simplefilter("ignore")
+                proc = multi_tan.MultiTanProcessor(collection.load([inputs]))
+                proc.compute_global_pixelization(Builder(pio))
+                proc._tile_serial(pio, False) if hasattr(proc, "_tile_serial") else proc.tile(pio, parallel=1)
+
+        return prog_tiler
+
     def prog():
         from toasty.pyramid import PyramidIO, Pos
         from toasty.image import Image, ImageMode
@@ -55,6 +72,60 @@ def child_program(d, fmt, updates):
                     basis._as_writeable_array()[y0 : y0 + h, x0 : x0 + w] = u["value"]
 
     return prog
+
+
+def exec_tilers(case):
+    """two independent serial multi-TAN tiling jobs on one pyramid, each contributing one half of the
+    same tile, under a generated gate order (the jobs' tile updates must be mutually exclusive too)"""
+    from astropy.io import fits
+    from .. import mtgen
+
+    fmt = case["format"]
+    W, H = case["size"]
+    mos = mtgen.mosaic_array(W, H)
+    grid = {"W": W, "H": H, "ra": 30.0, "dec": 10.0, "scale": 1e-3, "rot": 0.0}
+    with fresh_dir("c10t-") as d:
+        os.makedirs(os.path.join(d, "in"))
+        pyr = os.path.join(d, "pyr")
+        paths = []
+        njobs = case["jobs"]
+        for i in range(njobs):
+            data = np.full((H, W), np.nan, dtype=np.float32)
+            x0, x1 = (W * i) // njobs, (W * (i + 1)) // njobs
+            data[:, x0:x1] = mos[:, x0:x1]
+            hd = mtgen.header_for(grid, 0, 0, W, H, False)
+            pth = os.path.join(d, "in", f"job{i}.fits")
+            fits.writeto(pth, data, header=hd)
+            paths.append(pth)
+        run = GatedRun([child_program(pyr, fmt, None, inputs=pth) for pth in paths])
+        try:
+            res = run.run(case["schedule"])
+            errors = [(c.idx, c.error) for c in run.children if c.error]
+        except RuntimeError as e:
+            raise HarnessError(str(e))
+        finally:
+            run.close()
+        what = f"{njobs} independent serial multi-TAN jobs on one pyramid, {fmt}"
+        if res["status"] == "deadlock":
+            raise Violation("dead-lock", f"{what}: every live job waits for a lock that nobody releases")
+        if res["status"] != "completed":
+            raise HarnessError("gated run inconclusive: " + res["status"])
+        if errors:
+            raise Violation("reader-sees-partial-tile", f"{what}: job {errors[0][0]} failed inside its update: {errors[0][1]}")
+        from toasty.pyramid import PyramidIO
+
+        canvas_exp, levels = mtgen.expected_canvas(mos)
+        got, _present = mtgen.read_canvas(PyramidIO(pyr, default_format=fmt), levels, fmt)
+        if not np.array_equal(got, canvas_exp, equal_nan=True):
+            lost = [i for i in range(njobs) if np.isnan(got[(canvas_exp.shape[0] - H) // 2 + H // 2, (canvas_exp.shape[1] - W) // 2 + (W * i) // njobs + 1])]
+            raise Violation("lost-update", f"{what}: the final tiles lack the contribution of job(s) {lost}")
+    return Outcome(classes=["multi_tan_serial_jobs", fmt, f"jobs{njobs}", "overlap" if res["overlap_steps"] else "no-contention"], nontrivial=res["overlap_steps"] > 0, info={"steps": res["steps"]})
+
+
+@st.composite
+def strat_tilers(draw, tier):
+    return {"format": draw(st.sampled_from(["npy", "fits"])), "size": [draw(st.integers(20, 200)), draw(st.integers(20, 200))], "jobs": 2,
+            "schedule": draw(st.lists(st.integers(0, 11), max_size=80))}
 
 
 def exec_case(case):
@@ -144,6 +215,8 @@ def strat(draw, tier):
 
 
 PARTS = [
+    Part("gated_tiler_jobs", exec_tilers, strategy=strat_tilers, examples={"quick": 96, "thorough": 4000}, shards={"quick": 16, "thorough": 16},
+         budget_s={"quick": 60, "thorough": 1200}, engine="B (gated real processes, real SoftFileLock)", describe="two independent serial multi-TAN tiling jobs updating the same tile of one pyramid, gates ordered by a generated schedule"),
     Part("gated_updaters", exec_case, strategy=strat, examples={"quick": 480, "thorough": 30000}, shards={"quick": 16, "thorough": 16},
          budget_s={"quick": 70, "thorough": 1500}, engine="B (gated real processes, real SoftFileLock)", describe="generated updaters x rectangles x schedules over the gates"),
 ]
